@@ -334,6 +334,12 @@ pub extern "C" fn SFileCloseArchive(handle: HANDLE) -> bool {
             .unwrap()
             .retain(|_, file| file.archive_handle != handle_id);
 
+        // ... and the search handles opened on it
+        FIND_HANDLES
+            .lock()
+            .unwrap()
+            .retain(|_, find| find.archive_handle != handle_id);
+
         // Close the archive
         if ARCHIVES.lock().unwrap().remove(&handle_id).is_some() {
             set_last_error(ERROR_SUCCESS);
